@@ -3,7 +3,7 @@
 From Coq Require Extraction.
 From Coq Require Import ExtrOcamlBasic.
 From Coq Require Import List NArith ZArith.
-From YV Require Import Lib.Bytes Ids.Ranges Codec.Varint Codec.AnyCodec Codec.IdSetCodec Codec.UpdateV1 Codec.V2Cols Codec.UpdateV2 Codec.IdMapCodec Codec.WireV2 Codec.IdMapV2 Codec.Messages Codec.Cells Crdt.Doc Crdt.Local Crdt.Snapshot Crdt.Sticky Crdt.GcBlocks Crdt.YataBlocks Crdt.BlockIter Crdt.Dispatch Crdt.Redo Crdt.RedoFix Crdt.Links Crdt.Blocks Crdt.Merge Crdt.Diff Crdt.ApplyDelete Crdt.Integrate Crdt.RichText Crdt.XmlWalk Crdt.WriteBlocks Crdt.Events Crdt.Undo OpSet.Awareness.
+From YV Require Import Lib.Bytes Ids.Ranges Codec.Varint Codec.AnyCodec Codec.IdSetCodec Codec.UpdateV1 Codec.V2Cols Codec.UpdateV2 Codec.IdMapCodec Codec.WireV2 Codec.IdMapV2 Codec.Messages Codec.Cells Crdt.Doc Crdt.Local Crdt.Snapshot Crdt.Sticky Crdt.GcBlocks Crdt.YataBlocks Crdt.BlockIter Crdt.Dispatch Crdt.Redo Crdt.RedoFix Crdt.Links Crdt.Blocks Crdt.Merge Crdt.SvOrder Crdt.Diff Crdt.ApplyDelete Crdt.Integrate Crdt.RichText Crdt.XmlWalk Crdt.WriteBlocks Crdt.Events Crdt.Undo OpSet.Awareness.
 Extraction Language OCaml.
 Extraction "model.ml"
   N.add N.mul N.sub N.div_eucl N.eqb N.ltb N.leb N.of_nat N.to_nat
@@ -35,6 +35,7 @@ Extraction "model.ml"
   xw_build xw_observe xw_wfb xw_find xw_check_spec
   rt_apply_auto rt_render rt_spec_apply rt_op_ok rt_items_eqb_gc rt_wf relems_eqb
   itg_empty itg_drive_res itg_obs_ranges itg_obs_holes itg_obs_has_pending itg_obs_missing itg_update_wf itg_blocks_wf
+  svo_partial_cmp svo_merge svo_wf svo_get svo_set_min svo_set_max
   dff_diff_updates_v1 dff_state_vector_from_update_v1 dff_hypotheses_v1
   w2_decode_idset w2_decode_sv w2_decode_snapshot w2_decode_sticky w2_encode_idset_opt w2_encode_sv_opt w2_encode_snapshot_opt w2_encode_sticky_opt
   ueq umerge idset_insert idset_insert_range attrs_eq attrs_merge idattr_insert idattr_remove idattr_as_set.
